@@ -283,6 +283,85 @@ func (s *stackDisc) restoringClosure(g *ssa.Function, c stackCell) (ssa.Value, b
 	return saved, ok && n > 0
 }
 
+
+// helperEff: what a straight-line helper does to the cell — afterwards the cell holds the value of the helper's
+// parameter `param` (or, for param == -1, what it held at entry) with `delta` elements pushed on top.
+type helperEff struct{ param, delta int }
+
+// helperEffect summarises single-block functions that set the cell from a parameter and/or append a fixed number of
+// elements (`restorePath(saved)`, `enterPath(saved, elem)`), following calls to other such helpers.
+func (s *stackDisc) helperEffect(h *ssa.Function, c stackCell, depth int) (helperEff, bool) {
+	if h == nil || len(h.Blocks) != 1 || depth > 3 || !s.p.inModule(h) {
+		return helperEff{}, false
+	}
+	type state struct{ base, delta int }
+	cur := state{-1, 0}
+	loads := map[ssa.Value]state{}
+	ok := true
+	wrote := false
+	for _, ins := range h.Blocks[0].Instrs {
+		switch x := ins.(type) {
+		case *ssa.UnOp:
+			if lc, isL := cellOfLoad(x); isL && lc == c {
+				loads[x] = cur
+			}
+		case *ssa.Store:
+			cc, isCell := cellOfAddr(x.Addr)
+			if !isCell || cc != c {
+				continue
+			}
+			wrote = true
+			v := stripChange(x.Val)
+			if prm, isP := v.(*ssa.Parameter); isP {
+				cur = state{paramIndex(h, prm), 0}
+				continue
+			}
+			if call, isC := v.(*ssa.Call); isC {
+				if b, isB := call.Call.Value.(*ssa.Builtin); isB && b.Name() == "append" && len(call.Call.Args) == 2 {
+					if st, known := loads[stripChange(call.Call.Args[0])]; known {
+						if n, fixed := constLenOf(call.Call.Args[1]); fixed {
+							cur = state{st.base, st.delta + n}
+							continue
+						}
+					}
+				}
+			}
+			ok = false
+		case *ssa.Call:
+			for _, g := range s.callees(x) {
+				if !s.mayWrite(g, c) {
+					continue
+				}
+				eff, okE := s.helperEffect(g, c, depth+1)
+				if !okE {
+					ok = false
+					continue
+				}
+				wrote = true
+				if eff.param < 0 {
+					cur = state{cur.base, cur.delta + eff.delta}
+					continue
+				}
+				if eff.param >= len(x.Call.Args) {
+					ok = false
+					continue
+				}
+				if prm, isP := stripChange(x.Call.Args[eff.param]).(*ssa.Parameter); isP {
+					cur = state{paramIndex(h, prm), eff.delta}
+				} else {
+					ok = false
+				}
+			}
+		case *ssa.Defer, *ssa.Go, *ssa.MakeClosure:
+			ok = false
+		}
+	}
+	if !ok || !wrote {
+		return helperEff{}, false
+	}
+	return helperEff{cur.base, cur.delta}, true
+}
+
 type heightResult struct {
 	at       map[ssa.Instruction]int // height before the instruction (hUnknown when not known)
 	balanced bool                    // every return leaves the cell as the entry found it
@@ -342,6 +421,13 @@ func (s *stackDisc) heights(fn *ssa.Function, c stackCell) heightResult {
 						} else {
 							deferredRestore = hUnknown
 						}
+					} else if eff, okE := s.helperEffect(g, c, 0); okE && eff.param >= 0 && eff.param < len(x.Call.Args) {
+						// `defer v.restore(saved)`: the argument is evaluated now
+						if sh, known := savedAt[stripChange(x.Call.Args[eff.param])]; known {
+							deferredRestore = sh + eff.delta
+						} else {
+							deferredRestore = hUnknown
+						}
 					} else if s.mayWrite(g, c) && !s.balancedFn(g, c) {
 						deferredRestore = hUnknown
 					}
@@ -362,6 +448,23 @@ func (s *stackDisc) heights(fn *ssa.Function, c stackCell) heightResult {
 						if sh, known := savedAt[sv]; known {
 							h = sh
 						} else {
+							h = hUnknown
+						}
+						continue
+					}
+					if eff, okE := s.helperEffect(g, c, 0); okE {
+						switch {
+						case eff.param < 0:
+							if h != hUnknown {
+								h += eff.delta
+							}
+						case eff.param < len(x.Call.Args):
+							if sh, known := savedAt[stripChange(x.Call.Args[eff.param])]; known {
+								h = sh + eff.delta
+							} else {
+								h = hUnknown
+							}
+						default:
 							h = hUnknown
 						}
 						continue
@@ -572,27 +675,71 @@ func (s *stackDisc) recordedDepthSlice(sl *ssa.Slice) (string, bool) {
 	if !ok || ps.low == nil || ps.k != 1 {
 		return "", false
 	}
-	ex, ok := unspill(ps.low).(*ssa.Extract)
-	if !ok || ex.Index != 0 {
+	fn := sl.Parent()
+	r := s.heights(fn, ps.cell)
+	h, known := r.at[sl]
+	if !known || h == hUnknown {
 		return "", false
+	}
+	if mc, ok := s.recordedDepthValue(unspill(ps.low), sl.Block(), ps.cell); ok {
+		if h < 1 {
+			return "", false
+		}
+		return fmt.Sprintf("the low bound was recorded in %s as len(%s) when an enclosing frame was entered; entries are pushed and popped in stack order (decided: push/pop discipline), so the recorded depth is at most the current length minus one — assumed: the entry of %s is deleted when its frame is left", mc, ps.cell, mc), true
+	}
+	// the recorded depth arrives as a parameter (the report moved into a helper that is called after the push): every
+	// call site passes a recorded depth and stands at least one push above its own frame's entry
+	if prm, isP := unspill(ps.low).(*ssa.Parameter); isP {
+		j := paramIndex(fn, prm)
+		sites := callSitesOf(s.p, fn)
+		if j < 0 || len(sites) == 0 {
+			return "", false
+		}
+		var mcs string
+		for _, cs := range sites {
+			if j >= len(cs.Common().Args) {
+				return "", false
+			}
+			mc, ok := s.recordedDepthValue(unspill(cs.Common().Args[j]), cs.Block(), ps.cell)
+			if !ok {
+				return "", false
+			}
+			rc := s.heights(cs.Parent(), ps.cell)
+			hc, known := rc.at[cs]
+			if !known || hc == hUnknown || hc+h < 1 {
+				return "", false
+			}
+			mcs = mc.String()
+		}
+		return fmt.Sprintf("the low bound is a parameter that every caller takes from %s, where it was recorded as len(%s) when an enclosing frame was entered, and every caller has pushed at least one element since; entries are pushed and popped in stack order (decided: push/pop discipline) — assumed: the entry of %s is deleted when its frame is left", mcs, ps.cell, mcs), true
+	}
+	return "", false
+}
+
+// recordedDepthValue: low is the value found (comma-ok, under the found flag at block b) in a map every update of which
+// stores len(cell).
+func (s *stackDisc) recordedDepthValue(low ssa.Value, b *ssa.BasicBlock, cell stackCell) (stackCell, bool) {
+	ex, ok := low.(*ssa.Extract)
+	if !ok || ex.Index != 0 {
+		return stackCell{}, false
 	}
 	lk, ok := ex.Tuple.(*ssa.Lookup)
 	if !ok || !lk.CommaOk {
-		return "", false
+		return stackCell{}, false
 	}
 	mc, ok := cellOfLoad(lk.X)
 	if !ok {
-		return "", false
+		return stackCell{}, false
 	}
 	// under the found flag
 	found := false
-	for _, cd := range condsAt(sl.Block()) {
+	for _, cd := range condsAt(b) {
 		if e2, isE := cd.V.(*ssa.Extract); isE && e2.Tuple == ssa.Value(lk) && e2.Index == 1 && cd.True {
 			found = true
 		}
 	}
 	if !found {
-		return "", false
+		return stackCell{}, false
 	}
 	// every update of the map stores len(stack)
 	n, okAll := 0, true
@@ -619,20 +766,15 @@ func (s *stackDisc) recordedDepthSlice(sl *ssa.Slice) (string, bool) {
 				okAll = false
 				return
 			}
-			if lc, isL := cellOfLoad(call.Call.Args[0]); !isL || lc != ps.cell {
+			if lc, isL := cellOfLoad(call.Call.Args[0]); !isL || lc != cell {
 				okAll = false
 			}
 		})
 	}
 	if n == 0 || !okAll {
-		return "", false
+		return stackCell{}, false
 	}
-	fn := sl.Parent()
-	r := s.heights(fn, ps.cell)
-	if h, known := r.at[sl]; !known || h == hUnknown || h < 1 {
-		return "", false
-	}
-	return fmt.Sprintf("the low bound was recorded in %s as len(%s) when an enclosing frame was entered; entries are pushed and popped in stack order (decided: push/pop discipline), so the recorded depth is at most the current length minus one — assumed: the entry of %s is deleted when its frame is left", mc, ps.cell, mc), true
+	return mc, true
 }
 
 // derivesFromCell: v is computed from a load of the cell (a slice of it, an append to it).
